@@ -68,7 +68,7 @@ func TestMain(m *testing.M) {
 		Property: "C13",
 		Level:    "exploration",
 		Rule: "cases: (1) a parent/grandparent pair at a height within -3..+2 of a fork (or small/any height) of the mainnet, testnet, testnet2, test, testnet3, dev, mainnet+HF8-flag or a drawn custom schedule, and a candidate child whose fields are each drawn from {valid, at the bound, one past the bound}; VerifyHeader's verdict is compared with the rule table of refdiff.go; " +
-			"(2) CalcDifficulty against refdiff for an enumerated grid (every fork height -2..+2 of each named schedule x 30 block times x 60 parent difficulties) and for drawn tuples on drawn schedules; " +
+			"(2) CalcDifficulty against refdiff for an enumerated grid (every fork height -2..+2 of each named schedule x 30 block times x 93 parent difficulties; quick: a seed-dependent third of it) and for drawn tuples on drawn schedules; " +
 			"(3) a main chain of up to 10 blocks with side blocks, and a block whose uncle list is drawn from {fresh side block at distance 0..8, already included, ancestor, duplicate, broken header, unknown parent}; VerifyUncles' verdict is compared with a reference predicate; " +
 			"(4) parent-linked header batches of 1..24 (quick) / 1..64 (thorough) with 0-2 invalid members, mixed seal flags, fake/delaying/failing engines, verified with VerifyHeaders under GOMAXPROCS 1,2,3,8,16 and compared (first failing index and error text) with one-by-one VerifyHeader and with the reference. " +
 			"non-trivial = a header candidate sitting exactly on a bound (either side), a difficulty tuple at a fork block / on the floor clamp / on a duration-limit edge, an uncle set that is not empty, a batch with a failure or with delays; distinct = hash of schedule + heights + time offsets + field values (wall-clock independent)",
@@ -738,7 +738,7 @@ func canonHeaderCase(c hdrCase) []byte {
 }
 
 func TestVerifyHeaderIff(t *testing.T) {
-	ev.Check(t, cases(20000, 800_000), func(t *rapid.T) {
+	ev.Check(t, cases(20000, 640_000), func(t *rapid.T) {
 		c := drawHeaderCase(t)
 		msg, lbls, nt := runHeaderCase(c)
 		if msg != "" {
